@@ -3,7 +3,8 @@
    kinetics / the native engine, with multiplicities), for every w,h,d >= 1 and all 8 boundary mixes.
    Statements only; proofs are in Proofs/GridFacts.v. *)
 From Coq Require Import ZArith List Bool.
-From Verif Require Import Num Grid GridFacts.
+From Coq Require Import Qcanon.
+From Verif Require Import Num Grid GridFacts GridGraphFacts Engine EngineFacts GridGraphRate.
 Open Scope Z_scope.
 
 Theorem C15_index_formula : forall g x y z, index g (x, y, z) = z * (gw g * gh g) + y * gw g + x.
@@ -76,6 +77,33 @@ Theorem C15_engine_nbr_involution : forall g i dir j,
   engine_nbr g i dir = Some j -> 0 <= j < gsize g /\ engine_nbr g j (opp_dir dir) = Some i.
 Proof. exact engine_nbr_involution. Qed.
 Print Assumptions C15_engine_nbr_involution.
+
+(* grid_to_graph: the number of graph edges joining two distinct cells (either orientation) is the
+   multiplicity of one among the grid neighbours of the other - the same mult3 as the four relations
+   above, so 2 on a periodic axis of length 2 and never an edge between cells that are not adjacent *)
+Theorem C15_grid_to_graph_adjacency : forall g a b,
+  wf_grid g -> 0 <= a < gsize g -> 0 <= b < gsize g -> a <> b ->
+  edge_mult (g2g_edges g) a b = mult3 g (coords g a) (coords g b).
+Proof. exact g2g_edge_multiplicity. Qed.
+Print Assumptions C15_grid_to_graph_adjacency.
+
+Theorem C15_grid_to_graph_edges_in_range : forall g e, wf_grid g -> In e (g2g_edges g) ->
+  0 <= fst e < gsize g /\ 0 <= snd e < gsize g.
+Proof. exact g2g_edges_in_range. Qed.
+Print Assumptions C15_grid_to_graph_edges_in_range.
+
+(* ... so that, with every node of edge h and every graph edge of surface h^2 and distance h
+   (graph_of_grid), the rate law of every entry, the engine's derivative and every Euler trajectory
+   on the graph equal those on the grid: any network tables T, any state, any number of steps *)
+Theorem C15_graph_rate_law : forall T g h, wf_grid g -> Z.of_nat (nC T) = gsize g -> forall x i s, (i < nC T)%nat ->
+  rate_law T (graph_of_grid g h) x i s = rate_law T (GGrid g h) x i s.
+Proof. exact grid_graph_rate_law. Qed.
+Print Assumptions C15_graph_rate_law.
+
+Theorem C15_graph_trajectories : forall T g h, wf_grid g -> Z.of_nat (nC T) = gsize g -> h <> 0%Qc ->
+  forall dt n x, euler_steps T (graph_of_grid g h) dt n x = euler_steps T (GGrid g h) dt n x.
+Proof. exact grid_graph_euler_steps. Qed.
+Print Assumptions C15_graph_trajectories.
 
 (* non-vacuity: a 3x2x2 grid, periodic in x only *)
 Definition ex_grid := {| gw := 3; gh := 2; gd := 2; px := true; py := false; pz := false |}.
